@@ -500,8 +500,9 @@ def configs(tier):
         out.append(dict(n="I2", faults=1, excs=[], tty=False, stdout_faults=True))
     else:
         for n in (2, 3, "I2", "I3"):
-            out.append(dict(n=n, faults=2, excs=list(EXCS_MORE), rich=True))
-            out.append(dict(n=n, faults=1, excs=["RenderError", "KeyboardInterrupt"], rich=True, tty=n in (3, "I2"),
+            out.append(dict(n=n, faults=2, excs=list(EXCS_MORE if n != 3 else EXCS), rich=True))
+            # (3 frames x the rich operation set x stdout faults is ~1M transitions in one configuration)
+            out.append(dict(n=n, faults=1, excs=["RenderError", "KeyboardInterrupt"], rich=n != 3, tty=n in (3, "I2"),
                             stdout_faults=True))
         out.append(dict(n=2, faults=3, excs=list(EXCS)))
         out.append(dict(n="I2", faults=3, excs=list(EXCS)))
